@@ -9,6 +9,19 @@
 //! fields: `pkg` | buildpacks `id>K>dir>dep,dep|…` (K = L libcnb.rs / C composite; dir relative to the workspace root, `.` = root) |
 //!         invocation directories `dir;dir;…` (one run per entry, same workspace, same external package and target directories)
 //! observation: `walk=<ids in directory-walk order>;<order>:<ok|err:kind>|…`
+//!
+//! Third family (`lnk`): the library functions again, on workspaces in which buildpack directories are reached through symbolic links.
+//! fields: `lnk` | buildpacks `id>H>dep,dep|…` | selections `a,b;c;-` | noise `0`/`1`
+//!   H = how the directory entry `ws/<where>` comes to be a buildpack directory:
+//!     d real directory ws/bpK                         n real directory ws/sub/bpK
+//!     a ws/bpK -> <abs>/ext/eK (absolute target)      r ws/bpK -> ../ext/eK (relative target)
+//!     R ws/sub/bpK -> ../../ext/eK                    c ws/bpK -> ../hop/hK -> <abs>/ext/eK (chain of two)
+//!     C ws/bpK -> <abs>/hop/hK -> ../ext/eK           t real directory ws/bpK whose buildpack.toml / package.toml are links to files in ext/eK
+//!     i real directory shared/bpK with ws/via -> ../shared: an intermediate directory that is a link; the walker does not descend
+//!       into it (ignore::Walk, follow_links = false), the buildpack is NOT part of the workspace
+//!   every link target lies outside the walked tree, so every buildpack appears exactly once.
+//!   noise 1 adds: a dangling link, a link to a directory without buildpack.toml, a link to a file, a link to `..`
+//! observation: as in the first family
 use cnbv::*;
 use libcnb_data::buildpack::BuildpackId;
 use libcnb_package::buildpack_dependency_graph::{
@@ -117,6 +130,7 @@ fn run_case(f: &[String]) -> String {
         let o = pkg_run_case(f, false);
         return if o.contains("timeout") { pkg_run_case(f, true) } else { o };
     }
+    if f.first().map(String::as_str) == Some("lnk") { return lnk_run_case(f); }
     let nodes = parse_nodes(&f[0]);
     let ids: Vec<String> = nodes.iter().map(|n| n.0.clone()).collect();
     let selections = parse_roots(&ids, &f[1]);
@@ -166,6 +180,233 @@ fn run_case(f: &[String]) -> String {
     format!("walk={};{}", join(",", &walk), results.join("|"))
 }
 
+
+// ------------------------------------------------------------------------------------------------ the `lnk` family: buildpack directories behind symbolic links
+
+#[derive(Clone)]
+struct LNode { id: String, how: char, deps: Vec<String> }
+
+const HOWS: &[char] = &['d', 'n', 'a', 'r', 'R', 'c', 'C', 't', 'i'];
+fn is_link(h: char) -> bool { matches!(h, 'a' | 'r' | 'R' | 'c' | 'C') }
+
+fn parse_lnodes(s: &str) -> Option<Vec<LNode>> {
+    let mut out = vec![];
+    for b in split_list(s, "|") {
+        let p: Vec<&str> = b.split('>').collect();
+        if p.len() != 3 || p[0].is_empty() || p[1].chars().count() != 1 { return None; }
+        let how = p[1].chars().next().unwrap();
+        if !HOWS.contains(&how) { return None; }
+        out.push(LNode { id: p[0].into(), how, deps: split_list(p[2], ",").iter().map(|d| d.to_string()).collect() });
+    }
+    Some(out)
+}
+fn render_lnodes(ns: &[LNode]) -> String { join("|", &ns.iter().map(|n| format!("{}>{}>{}", n.id, n.how, join(",", &n.deps))).collect::<Vec<_>>()) }
+
+/// the files of one buildpack (composite when it has dependencies or an odd number, else a libcnb.rs one)
+fn write_bp(dir: &Path, id: &str, deps: &[String], k: usize) {
+    fs::create_dir_all(dir).unwrap();
+    if !deps.is_empty() || k % 2 == 1 {
+        fs::write(dir.join("buildpack.toml"), composite_toml(id, deps)).unwrap();
+    } else {
+        fs::write(dir.join("buildpack.toml"), component_toml(id)).unwrap();
+        fs::write(dir.join("Cargo.toml"), "[package]\nname = \"x\"\nversion = \"0.0.0\"\n").unwrap();
+    }
+    if !deps.is_empty() || k % 3 == 0 {
+        let mut s = String::from("[buildpack]\nuri = \".\"\n");
+        for d in deps { s.push_str(&format!("\n[[dependencies]]\nuri = \"libcnb:{d}\"\n")); }
+        fs::write(dir.join("package.toml"), s).unwrap();
+    }
+}
+
+/// `base/ws` is the walked tree; `base/ext`, `base/hop`, `base/shared` lie beside it. Returns entry path -> id for the buildpacks of the workspace.
+fn lnk_materialise(base: &Path, nodes: &[LNode], noise: bool) -> Vec<(PathBuf, String)> {
+    use std::os::unix::fs::symlink;
+    let ws = base.join("ws");
+    let ext = base.join("ext");
+    fs::create_dir_all(&ws).unwrap();
+    fs::create_dir_all(&ext).unwrap();
+    let mut table = vec![];
+    for (k, n) in nodes.iter().enumerate() {
+        let target = ext.join(format!("e{k}"));
+        let nested = matches!(n.how, 'n' | 'R');
+        let entry = if nested { fs::create_dir_all(ws.join("sub")).unwrap(); ws.join(format!("sub/bp{k}")) } else { ws.join(format!("bp{k}")) };
+        match n.how {
+            'd' | 'n' => write_bp(&entry, &n.id, &n.deps, k),
+            'a' => { write_bp(&target, &n.id, &n.deps, k); symlink(&target, &entry).unwrap(); }
+            'r' => { write_bp(&target, &n.id, &n.deps, k); symlink(format!("../ext/e{k}"), &entry).unwrap(); }
+            'R' => { write_bp(&target, &n.id, &n.deps, k); symlink(format!("../../ext/e{k}"), &entry).unwrap(); }
+            'c' => { write_bp(&target, &n.id, &n.deps, k); fs::create_dir_all(base.join("hop")).unwrap(); symlink(&target, base.join(format!("hop/h{k}"))).unwrap(); symlink(format!("../hop/h{k}"), &entry).unwrap(); }
+            'C' => { write_bp(&target, &n.id, &n.deps, k); fs::create_dir_all(base.join("hop")).unwrap(); symlink(format!("../ext/e{k}"), base.join(format!("hop/h{k}"))).unwrap(); symlink(base.join(format!("hop/h{k}")), &entry).unwrap(); }
+            't' => {
+                write_bp(&target, &n.id, &n.deps, k);
+                fs::create_dir_all(&entry).unwrap();
+                for f in ["buildpack.toml", "package.toml", "Cargo.toml"] { if target.join(f).exists() { symlink(if k % 2 == 0 { target.join(f) } else { PathBuf::from(format!("../../ext/e{k}/{f}")) }, entry.join(f)).unwrap(); } }
+            }
+            'i' => {
+                let shared = base.join("shared");
+                if !shared.exists() { fs::create_dir_all(&shared).unwrap(); symlink("../shared", ws.join("via")).unwrap(); }
+                write_bp(&shared.join(format!("bp{k}")), &n.id, &n.deps, k);
+                continue; // not part of the workspace
+            }
+            _ => unreachable!(),
+        }
+        table.push((entry, n.id.clone()));
+    }
+    if noise {
+        symlink("../ext/nothing-here", ws.join("gone")).unwrap();
+        fs::create_dir_all(ext.join("plain")).unwrap();
+        fs::write(ext.join("plain/README.md"), "x").unwrap();
+        symlink("../ext/plain", ws.join("plain")).unwrap();
+        symlink(ext.join("plain/README.md"), ws.join("readme")).unwrap();
+        symlink("..", ws.join("up")).unwrap();
+    }
+    table
+}
+
+fn lnk_run_case(f: &[String]) -> String {
+    if f.len() != 4 { return "bad-case".into(); }
+    let Some(nodes) = parse_lnodes(&f[1]) else { return "bad-case".into() };
+    let noise = match f[3].as_str() { "0" => false, "1" => true, _ => return "bad-case".into() };
+    let selections: Vec<Vec<String>> = f[2].split(';').map(|sel| split_list(sel, ",").iter().map(|x| x.to_string()).collect()).collect();
+    let tmp = tempfile::Builder::new().prefix("c13l-").tempdir().unwrap();
+    let base = tmp.path().canonicalize().unwrap();
+    let table = lnk_materialise(&base, &nodes, noise);
+    observe_graph(&base.join("ws"), &table, &selections)
+}
+
+/// the observation of the first family for a tree that is already written (same steps as in `run_case`)
+fn observe_graph(root: &Path, table: &[(PathBuf, String)], selections: &[Vec<String>]) -> String {
+    let graph = match build_libcnb_buildpacks_dependency_graph(root) {
+        Ok(g) => g,
+        Err(BuildBuildpackDependencyGraphError::CreateDependencyGraphError(CreateDependencyGraphError::MissingDependency(id))) => {
+            let Ok(dirs) = libcnb_package::find_buildpack_dirs(root) else { return "err:walk".into() };
+            let walk: Vec<String> = dirs.iter().filter_map(|d| table.iter().find(|(p, _)| p == d).map(|(_, i)| i.clone())).collect();
+            return format!("walk={};err:missing:{id}", join(",", &walk));
+        }
+        Err(BuildBuildpackDependencyGraphError::CreateDependencyGraphError(CreateDependencyGraphError::GetNodeDependenciesError(_))) => return "err:nodedeps".into(),
+        Err(BuildBuildpackDependencyGraphError::FindBuildpackDirectories(_)) => return "err:walk".into(),
+        Err(BuildBuildpackDependencyGraphError::ReadBuildpackDescriptorError(_)) => return "err:read-buildpack".into(),
+        Err(BuildBuildpackDependencyGraphError::ReadPackageDescriptorError(_)) => return "err:read-package".into(),
+        Err(BuildBuildpackDependencyGraphError::InvalidDependencyBuildpackId(_)) => return "err:dep-id".into(),
+    };
+    let walk: Vec<String> = graph.node_weights().map(|n| n.buildpack_id.to_string()).collect();
+    for n in graph.node_weights() {
+        match table.iter().find(|(p, _)| *p == n.path) {
+            Some((_, i)) if *i == n.buildpack_id.to_string() => {}
+            _ => return format!("err:node-path:{}", n.buildpack_id),
+        }
+    }
+    let mut root_ids: Vec<&String> = selections.iter().flatten().collect();
+    root_ids.sort();
+    root_ids.dedup();
+    let by_id: Vec<(String, &BuildpackDependencyGraphNode)> = graph.node_weights().map(|n| (n.buildpack_id.to_string(), n)).collect();
+    let dummies: Vec<(String, BuildpackDependencyGraphNode)> = root_ids.iter().filter(|r| !by_id.iter().any(|(i, _)| i == **r)).map(|r| ((*r).clone(), BuildpackDependencyGraphNode { buildpack_id: bid(r), path: PathBuf::new(), dependencies: vec![] })).collect();
+    let mut results = vec![];
+    for sel in selections {
+        let roots: Vec<&BuildpackDependencyGraphNode> = sel.iter().map(|r| by_id.iter().find(|(i, _)| i == r).map(|(_, n)| *n).unwrap_or_else(|| &dummies.iter().find(|(i, _)| i == r).unwrap().1)).collect();
+        results.push(match get_dependencies(&graph, &roots) {
+            Ok(order) => join(",", &order.iter().map(|n| n.buildpack_id.to_string()).collect::<Vec<_>>()),
+            Err(GetDependenciesError::UnknownRootNode(id)) => format!("err:root:{id}"),
+        });
+    }
+    format!("walk={};{}", join(",", &walk), results.join("|"))
+}
+
+fn lnk_case(nodes: &[LNode], sels: &[Vec<String>], noise: bool, family: &str) -> Case {
+    let n = nodes.len();
+    let placed: Vec<&LNode> = nodes.iter().filter(|x| x.how != 'i').collect();
+    let idx = |id: &str| nodes.iter().position(|b| b.id == id);
+    let adj: Vec<Vec<usize>> = nodes.iter().map(|b| b.deps.iter().filter_map(|d| idx(d)).collect()).collect();
+    let dangling = placed.iter().any(|b| b.deps.iter().any(|d| !placed.iter().any(|p| &p.id == d)));
+    let linked: Vec<&LNode> = nodes.iter().filter(|x| is_link(x.how)).collect();
+    let link_dep = linked.iter().any(|l| placed.iter().any(|p| p.deps.contains(&l.id)));
+    let link_root = linked.iter().any(|l| sels.iter().any(|s| s.contains(&l.id)));
+    let link_unrelated = linked.iter().any(|l| !placed.iter().any(|p| p.deps.contains(&l.id)) && l.deps.is_empty());
+    let mut hows: Vec<char> = nodes.iter().map(|x| x.how).collect();
+    hows.sort();
+    hows.dedup();
+    Case {
+        fields: vec!["lnk".into(), render_lnodes(nodes), sels.iter().map(|s| join(",", s)).collect::<Vec<_>>().join(";"), u8::from(noise).to_string()],
+        tags: vec![("kind".into(), format!("lnk-{}", if dangling { "dangling" } else { family })), ("n".into(), n.to_string()), ("links".into(), linked.len().to_string()),
+                   ("hows".into(), hows.iter().collect::<String>()), ("link-is-dependency".into(), u8::from(link_dep).to_string()), ("link-is-root".into(), u8::from(link_root).to_string()),
+                   ("link-unrelated".into(), u8::from(link_unrelated).to_string()), ("via-linked-dir".into(), nodes.iter().filter(|x| x.how == 'i').count().to_string()),
+                   ("depth".into(), (if acyclic(n, &adj) { depth(n, &adj) } else { 0 }).to_string()), ("selections".into(), sels.len().to_string()), ("noise".into(), u8::from(noise).to_string())],
+        // non-trivial: a buildpack directory that is a link and is a dependency of another buildpack or selected, or a dangling dependency
+        nontrivial: link_dep || link_root || dangling,
+    }
+}
+
+fn generate_lnk(thorough: bool, seed: u64, emit: &mut dyn FnMut(Case)) {
+    // 1. every labelled DAG on <= 3 buildpacks x every assignment of {d, a, r, c} (thorough: + i) with at least one entry that is not a real directory,
+    //    x every non-empty ordered selection of distinct buildpacks (the whole set = what a whole-workspace run selects)
+    let pool: &[char] = if thorough { &['d', 'a', 'r', 'c', 'i'] } else { &['d', 'a', 'r', 'c'] };
+    let mut count = 0u64;
+    for n in 1..=3usize {
+        let pairs: Vec<(usize, usize)> = (0..n).flat_map(|u| (0..n).filter(move |&w| w != u).map(move |w| (u, w))).collect();
+        for mask in 0u32..(1u32 << pairs.len()) {
+            let mut adj = vec![vec![]; n];
+            for (b, &(u, w)) in pairs.iter().enumerate() { if mask >> b & 1 == 1 { adj[u].push(w); } }
+            if !acyclic(n, &adj) { continue; }
+            let combos = pool.len().pow(n as u32);
+            for c in 0..combos {
+                let hows: Vec<char> = (0..n).map(|u| pool[c / pool.len().pow(u as u32) % pool.len()]).collect();
+                if hows.iter().all(|h| *h == 'd') { continue; }
+                count += 1;
+                let nodes: Vec<LNode> = (0..n).map(|u| LNode { id: NAMES[u].into(), how: hows[u], deps: adj[u].iter().map(|&w| NAMES[w].to_string()).collect() }).collect();
+                let ids: Vec<String> = nodes.iter().map(|x| x.id.clone()).collect();
+                emit(lnk_case(&nodes, &sels(n, &ids), count % 5 == 0, "exh"));
+            }
+        }
+    }
+    // 2. hand-made: the shared buildpack linked into the workspace in every role and through every kind of link; an intermediate linked directory
+    let b = |id: &str, how: char, deps: &[&str]| LNode { id: id.into(), how, deps: deps.iter().map(|d| d.to_string()).collect() };
+    let s = |v: &[&[&str]]| -> Vec<Vec<String>> { v.iter().map(|x| x.iter().map(|y| y.to_string()).collect()).collect() };
+    for how in ['a', 'r', 'R', 'c', 'C', 't'] {
+        // dependency of a composite beside a real directory
+        emit(lnk_case(&[b("demo/maven", 'd', &[]), b("demo/jvm", how, &[]), b("demo/java", 'n', &["demo/jvm", "demo/maven"])], &s(&[&["demo/java"], &["demo/maven", "demo/jvm", "demo/java"], &["demo/jvm"]]), false, "fixed"));
+        // the top of a chain (nothing depends on it), selected alone and with everything
+        emit(lnk_case(&[b("x/top", how, &["x/mid"]), b("x/mid", 'd', &["x/low"]), b("x/low", 'd', &[]), b("solo", 'd', &[])], &s(&[&["x/top"], &["x/top", "x/mid", "x/low", "solo"], &["solo"]]), true, "fixed"));
+        // unrelated to everything else
+        emit(lnk_case(&[b("p/a", 'd', &["p/b"]), b("p/b", 'd', &[]), b("alone", how, &[])], &s(&[&["p/a", "p/b", "alone"], &["alone"], &["p/a"]]), false, "fixed"));
+        // the middle of a chain, the base of a diamond
+        emit(lnk_case(&[b("d/top", 'd', &["d/left", "d/right"]), b("d/left", how, &["d/base"]), b("d/right", 'n', &["d/base"]), b("d/base", how, &[])], &s(&[&["d/top"], &["d/right", "d/left"], &["d/base", "d/top"]]), true, "fixed"));
+    }
+    // every buildpack behind the intermediate link `ws/via -> ../shared`: outside the workspace; one real directory depends on one of them (dangling)
+    emit(lnk_case(&[b("s/one", 'i', &[]), b("s/two", 'i', &["s/one"]), b("here", 'd', &[])], &s(&[&["here"], &["s/one"], &["here", "s/two"]]), false, "via"));
+    emit(lnk_case(&[b("s/one", 'i', &[]), b("s/two", 'i', &["s/one"]), b("here", 'd', &["s/two"])], &s(&[&["here"]]), false, "via"));
+    emit(lnk_case(&[b("s/one", 'i', &[]), b("s/two", 'i', &[])], &s(&[&["s/one"], &[]]), true, "via"));
+    // 3. seeded random
+    let samples: u64 = if thorough { 4_000 } else { 300 };
+    for k in 0..samples {
+        let mut r = Rng::for_case(seed ^ 0x13_11_4B, k);
+        let n = r.range(1, 8) as usize;
+        let mut names: Vec<String> = LONG.iter().map(|s| s.to_string()).collect();
+        r.shuffle(&mut names);
+        names.truncate(n);
+        let mut pos: Vec<usize> = (0..n).collect();
+        r.shuffle(&mut pos);
+        let density = r.range(1, 6);
+        let mut adj = vec![vec![]; n];
+        for u in 0..n { for w in 0..n { if pos[w] < pos[u] && r.chance(density, 8) { adj[u].push(w); } } }
+        for a in adj.iter_mut() { r.shuffle(a); }
+        let via = r.chance(1, 6);
+        let mut nodes: Vec<LNode> = (0..n).map(|u| {
+            let how = if via && r.chance(1, 3) { 'i' } else if r.chance(1, 2) { *r.pick(&['a', 'r', 'R', 'c', 'C', 't']) } else { *r.pick(&['d', 'n']) };
+            LNode { id: names[u].clone(), how, deps: adj[u].iter().map(|&w| names[w].clone()).collect() }
+        }).collect();
+        if r.chance(1, 8) { let u = r.below(n as u64) as usize; let at = r.below(nodes[u].deps.len() as u64 + 1) as usize; nodes[u].deps.insert(at, "heroku/missing".into()); }
+        r.shuffle(&mut nodes);
+        let mut selv: Vec<Vec<String>> = vec![nodes.iter().filter(|x| x.how != 'i').map(|x| x.id.clone()).collect()];
+        for _ in 0..r.range(1, 5) {
+            let kk = if r.chance(1, 20) { 0 } else { r.range(1, (n as u64).min(4)) };
+            let mut sel: Vec<String> = (0..kk).map(|_| r.pick(&names).clone()).collect();
+            if r.chance(1, 12) { let at = r.below(sel.len() as u64 + 1) as usize; sel.insert(at, "not/there".to_string()); }
+            selv.push(sel);
+        }
+        emit(lnk_case(&nodes, &selv, r.chance(1, 3), "rnd"));
+    }
+}
+
 // ------------------------------------------------------------------------------------------------ generation
 
 fn acyclic(n: usize, adj: &[Vec<usize>]) -> bool {
@@ -213,6 +454,8 @@ fn generate(tier: &str, seed: u64, emit: &mut dyn FnMut(Case)) {
     let thorough = tier == "thorough";
     // 0. the real executable on generated workspaces (first: these are the slow cases, the worker threads pick them up early)
     generate_pkg(thorough, seed, emit);
+    // 0b. buildpack directories reached through symbolic links (library functions)
+    generate_lnk(thorough, seed, emit);
     // 1. every labelled DAG on <= nmax nodes, dependency lists ascending and descending, every non-empty ordered root selection
     let nmax = if thorough { 5 } else { 4 };
     let mut gcount = 0u64;
@@ -492,21 +735,23 @@ fn building_order(stderr: &str) -> Vec<String> {
 }
 
 #[derive(Clone)]
-struct PBp { id: String, libcnb: bool, dir: String, deps: Vec<String> }
+/// `link`: (composites only) the directory entry is a symbolic link to a directory outside the workspace (kind letter `S`)
+struct PBp { id: String, libcnb: bool, dir: String, deps: Vec<String>, link: bool }
 
 fn parse_pbps(s: &str) -> Option<Vec<PBp>> {
     let mut out = vec![];
     for b in split_list(s, "|") {
         let p: Vec<&str> = b.split('>').collect();
         if p.len() != 4 || p[0].is_empty() || p[2].is_empty() { return None; }
-        let libcnb = match p[1] { "L" => true, "C" => false, _ => return None };
+        let (libcnb, link) = match p[1] { "L" => (true, false), "C" => (false, false), "S" => (false, true), _ => return None };
+        if link && p[2] == "." { return None; }
         // directories are plain relative paths
         if p[2] != "." && p[2].split('/').any(|c| c.is_empty() || c == "." || c == ".." ) { return None; }
-        out.push(PBp { id: p[0].into(), libcnb, dir: p[2].into(), deps: split_list(p[3], ",").iter().map(|d| d.to_string()).collect() });
+        out.push(PBp { id: p[0].into(), libcnb, dir: p[2].into(), deps: split_list(p[3], ",").iter().map(|d| d.to_string()).collect(), link });
     }
     Some(out)
 }
-fn render_pbps(bps: &[PBp]) -> String { join("|", &bps.iter().map(|b| format!("{}>{}>{}>{}", b.id, if b.libcnb { "L" } else { "C" }, b.dir, join(",", &b.deps))).collect::<Vec<_>>()) }
+fn render_pbps(bps: &[PBp]) -> String { join("|", &bps.iter().map(|b| format!("{}>{}>{}>{}", b.id, if b.libcnb { "L" } else if b.link { "S" } else { "C" }, b.dir, join(",", &b.deps))).collect::<Vec<_>>()) }
 
 fn pdir(ws: &Path, rel: &str) -> PathBuf { if rel == "." { ws.to_path_buf() } else { ws.join(rel) } }
 
@@ -519,8 +764,16 @@ fn pkg_materialise(ws: &Path, bps: &[PBp]) {
     let mut lock = String::from("# This file is automatically @generated by Cargo.\n# It is not intended for manual editing.\nversion = 4\n");
     let mut names: Vec<String> = vec![];
     for (k, bp) in bps.iter().enumerate() {
-        let d = pdir(ws, &bp.dir);
+        let entry = pdir(ws, &bp.dir);
+        // a linked composite lives in <scratch>/ext/eK beside the workspace; the entry is a link to it, absolute (even K) or relative (odd K)
+        let d = if bp.link { ws.parent().unwrap().join(format!("ext/e{k}")) } else { entry.clone() };
         fs::create_dir_all(&d).unwrap();
+        if bp.link {
+            fs::create_dir_all(entry.parent().unwrap()).unwrap();
+            let depth = bp.dir.split('/').count();
+            let target = if k % 2 == 0 { d.clone() } else { PathBuf::from(format!("{}ext/e{k}", "../".repeat(depth))) };
+            std::os::unix::fs::symlink(target, &entry).unwrap();
+        }
         if bp.libcnb {
             let name = format!("p{k}");
             let package = format!("[package]\nname = \"{name}\"\nversion = \"0.0.0\"\nedition = \"2021\"\n");
@@ -570,6 +823,7 @@ fn pkg_run_case(f: &[String], alone: bool) -> String {
     let mut results = vec![];
     for (k, inv) in invs.iter().enumerate() {
         if *inv != "." && inv.split('/').any(|c| c.is_empty() || c == "." || c == "..") { return "bad-case".into(); }
+        if bps.iter().any(|b| b.link && (b.dir == *inv || inv.starts_with(&format!("{}/", b.dir)))) { return "bad-case".into(); }
         let cwd = pdir(&ws, inv);
         if !cwd.is_dir() { fs::create_dir_all(&cwd).unwrap(); }
         let o = run_tool_once(&tool, &scratch, &cwd, &format!("run{k}"));
@@ -601,7 +855,7 @@ fn pkg_case(bps: &[PBp], invs: &[String], family: &str) -> Case {
                    ("depth".into(), dep.to_string()), ("edge-L>C".into(), u8::from(edge(true, false)).to_string()), ("edge-C>L".into(), u8::from(edge(false, true)).to_string()),
                    ("edge-C>C".into(), u8::from(edge(false, false)).to_string()), ("edge-L>L".into(), u8::from(edge(true, true)).to_string()),
                    ("root-buildpack".into(), bps.iter().find(|b| b.dir == ".").map(|b| if b.libcnb { "L" } else { "C" }).unwrap_or("none").to_string()),
-                   ("invocations".into(), invs.len().to_string()), ("plain-inv".into(), u8::from(plain_inv).to_string())],
+                   ("invocations".into(), invs.len().to_string()), ("plain-inv".into(), u8::from(plain_inv).to_string()), ("linked-dirs".into(), bps.iter().filter(|b| b.link).count().to_string())],
         // non-trivial: a dependency between buildpacks of different kinds, a chain of length >= 2, a shared dependency, or a dangling one
         nontrivial: dangling || mixed || dep >= 2 || shared_node(n, &adj),
     }
@@ -610,7 +864,8 @@ fn pkg_case(bps: &[PBp], invs: &[String], family: &str) -> Case {
 /// root first, then every buildpack directory
 fn all_invs(bps: &[PBp]) -> Vec<String> {
     let mut v = vec![".".to_string()];
-    v.extend(bps.iter().filter(|b| b.dir != ".").map(|b| b.dir.clone()));
+    // (not from a linked directory: the process's current directory is then the link's target, outside the cargo workspace)
+    v.extend(bps.iter().filter(|b| b.dir != "." && !b.link).map(|b| b.dir.clone()));
     v
 }
 
@@ -618,7 +873,7 @@ fn default_dir(k: usize, libcnb: bool) -> String { if libcnb { format!("bps/{}",
 
 /// hand-made workspaces: every kind of edge, chains and diamonds mixing kinds, buildpacks at the workspace root, unrelated buildpacks, nesting
 fn pkg_fixed() -> Vec<(Vec<PBp>, Vec<String>)> {
-    let b = |id: &str, k: &str, dir: &str, deps: &[&str]| PBp { id: id.into(), libcnb: k == "L", dir: dir.into(), deps: deps.iter().map(|d| d.to_string()).collect() };
+    let b = |id: &str, k: &str, dir: &str, deps: &[&str]| PBp { id: id.into(), libcnb: k == "L", dir: dir.into(), deps: deps.iter().map(|d| d.to_string()).collect(), link: k == "S" };
     let shapes: Vec<Vec<PBp>> = vec![
         // chains alternating kinds
         vec![b("x/top", "L", "bps/top", &["x/mid"]), b("x/mid", "C", "meta/mid", &["x/low"]), b("x/low", "L", "bps/low", &[])],
@@ -637,6 +892,12 @@ fn pkg_fixed() -> Vec<(Vec<PBp>, Vec<String>)> {
         // a composite inside a libcnb.rs buildpack's directory that the latter depends on; two unrelated pairs
         vec![b("n/outer", "L", "outer", &["n/inner"]), b("n/inner", "C", "outer/inner", &[]), b("n/user", "C", "user", &["n/outer"])],
         vec![b("p/a", "L", "one/a", &["p/b"]), b("p/b", "C", "one/b", &[]), b("q/a", "C", "two/a", &["q/b"]), b("q/b", "L", "two/b", &[])],
+        // composites whose directory is a link to a directory outside the workspace (S): a dependency of others; the top of a chain; unrelated; links depending on links
+        vec![b("demo/maven", "L", "bps/maven", &[]), b("demo/jvm", "S", "bps/jvm", &[]), b("demo/java", "C", "meta/java", &["demo/jvm", "demo/maven"])],
+        vec![b("demo/maven", "L", "bps/maven", &[]), b("demo/java", "C", "meta/java", &["demo/jvm", "demo/maven"]), b("demo/jvm", "S", "vendor/deep/jvm", &[])],
+        vec![b("x/top", "S", "meta/top", &["x/mid"]), b("x/mid", "L", "bps/mid", &["x/low"]), b("x/low", "C", "meta/low", &[])],
+        vec![b("p/a", "L", "bps/a", &["p/b"]), b("p/b", "C", "meta/b", &[]), b("alone", "S", "alone", &[])],
+        vec![b("z", "C", "meta/z", &["x"]), b("x", "S", "meta/x", &["y"]), b("y", "S", "linked/y", &[])],
     ];
     shapes.into_iter().enumerate().map(|(i, s)| { let mut invs = all_invs(&s); if i % 3 == 0 { invs.push(if s.iter().any(|x| x.dir.starts_with("bps/")) { "bps".into() } else { "src-less/plain".into() }); } (s, invs) }).collect()
 }
@@ -659,7 +920,7 @@ fn pkg_random(r: &mut Rng, nmin: u64, nmax: u64) -> (Vec<PBp>, Vec<String>) {
     let mut bps: Vec<PBp> = (0..n).map(|u| {
         let leaf = format!("d{u}");
         let dir = if at_root == Some(u) { ".".to_string() } else { match r.below(4) { 0 => leaf, 1 => format!("bps/{leaf}"), 2 => format!("deep/er/{leaf}"), _ => format!("{}/{leaf}", if kinds[u] { "crates" } else { "meta" }) } };
-        PBp { id: names[u].clone(), libcnb: kinds[u], dir, deps: adj[u].iter().map(|&w| names[w].clone()).collect() }
+        PBp { id: names[u].clone(), libcnb: kinds[u], dir, deps: adj[u].iter().map(|&w| names[w].clone()).collect(), link: false }
     }).collect();
     if r.chance(1, 8) { let u = r.below(n as u64) as usize; let at = r.below(bps[u].deps.len() as u64 + 1) as usize; bps[u].deps.insert(at, "heroku/missing".into()); }
     r.shuffle(&mut bps);
@@ -682,7 +943,7 @@ fn generate_pkg(thorough: bool, seed: u64, emit: &mut dyn FnMut(Case)) {
             for (b, &(u, w)) in pairs.iter().enumerate() { if mask >> b & 1 == 1 { adj[u].push(w); } }
             if !acyclic(n, &adj) { continue; }
             for kinds in 0u32..(1u32 << n) {
-                let mk = |root: Option<usize>| -> Vec<PBp> { (0..n).map(|u| { let l = kinds >> u & 1 == 1; PBp { id: NAMES[u].into(), libcnb: l, dir: if root == Some(u) { ".".into() } else { default_dir(u, l) }, deps: adj[u].iter().map(|&w| NAMES[w].to_string()).collect() } }).collect() };
+                let mk = |root: Option<usize>| -> Vec<PBp> { (0..n).map(|u| { let l = kinds >> u & 1 == 1; PBp { id: NAMES[u].into(), libcnb: l, dir: if root == Some(u) { ".".into() } else { default_dir(u, l) }, deps: adj[u].iter().map(|&w| NAMES[w].to_string()).collect(), link: false } }).collect() };
                 let bps = mk(None);
                 emit(pkg_case(&bps, &all_invs(&bps), "exh"));
                 count += 1;
